@@ -156,6 +156,10 @@ def distinct_values(dom):
     if isinstance(dom, FiniteRange):
         return list(dict.fromkeys(dom.values))
     if isinstance(dom, Integer):
+        q = getattr(getattr(dom, "sampler", None), "q", None)
+        if isinstance(q, int) and q > 1:
+            # quantised integer domain: the values its sampler is meant to produce
+            return [v for v in range(dom.lower, dom.upper + 1) if v % q == 0] or [dom.lower]
         return list(range(dom.lower, dom.upper + 1))
     if isinstance(dom, Float):
         return [dom.lower] if dom.lower == dom.upper else None
